@@ -328,6 +328,9 @@ func genQueries(r *rand.Rand, d *dataset, perShape int) []*query {
 				if sh.cmd != "SCAN" && sh.cmd != "SEARCH" {
 					q.area = genArea(r, sh.cmd)
 				}
+				if sh.cmd == "INTERSECTS" && len(q.area) > 0 && q.area[0] == "BOUNDS" && r.Intn(2) == 0 {
+					q.opts = append(q.opts, "CLIP") // objects come back clipped; the page boundaries are the same
+				}
 				out = append(out, q)
 			}
 		}
